@@ -177,3 +177,8 @@ pub fn replay(case: &Value) -> Vec<Violation> {
     with_curve!(case.st.curve, G, run_case::<G>(0, &case, &mut st));
     st.violations
 }
+
+pub fn shrink(case: &Value) -> Vec<Value> {
+    let Ok(c) = serde_json::from_value::<SessionCase>(case.clone()) else { return vec![] };
+    shrink_session(&c).into_iter().map(|(s, _)| to_value(&s)).collect()
+}
